@@ -84,6 +84,22 @@ CLAIMS = {
             "<= 3 blocks, concrete volumes in the quick tier; LFP averaging outside.", "3 C20"),
 }
 
+# coverage added by the strengthening rounds (appended to the claim text / note of CLAIMS)
+EXTRA = {
+    "C01": ("Also: exact order of deep traversals on every tree of <= 7-8 nodes; flag-filtered traversals for single, combined and list type specifications; every public way of taking children out (remove, removeAll, setChildren, replaceBlockWithBlock, adjustResolution, removeAssembly) leaves the object parentless with a detached location; pin grids and grid ownership through copies; refused operations leave the model unchanged.", "One recorded known finding (replaceBlockWithBlock with a gridded replacement)."),
+    "C02": ("Also: composite-level setters introducing a nuclide no child holds (with empty components), element and empty selections, every kind of nuclide (dummy, lumped, natural, isotope), negative-volume gap children, blocks cut by symmetry, cold/hot area queries in either order.", "One recorded known finding (component-level mass accounting in a symmetry-cut block)."),
+    "C03": ("Also: every real library material of every material base class at spot temperatures over its stated range (mass per unit height, area = cold x f^2), components linked to two targets and chains of links with the middle component re-dimensioned or re-linked, cold area independent of the current temperature.", ""),
+    "C07": ("Also: offsets in every dimension for 7 grid kinds, all 27 three-deep nestings, ring/position/plane to locator and back, every assignment of {steps, bounds} to the three dimensions through reduce(), grids built from whole-number constructor arguments, pitch changes that leave the axial direction alone, Cartesian rings.", "Recorded known findings: locator beyond the last bounds-defined cell; nested global cell base/top."),
+    "C08": ("Also: pin components sharing one locator, blocks placed off-centre in a core, assemblies of several blocks (each block turned exactly once, other blocks untouched), every multiple of 60 degrees accepted.", ""),
+    "C11": ("Also: one ParamMapper serving a history of mappings, negative peak values, decusped common mesh with symbolic control boundaries / thin foot and cap blocks / cores without control assemblies, includePinCoordinates, windows beyond the assembly, numpy inputs and overhanging bins in step resampling.", "Recorded known findings: decusping does not anchor the assembly ends; resampleStepwise sum mode for a bin strictly inside one input bin."),
+    "C12": ("Also: documented target preference order, user-designated and re-designated targets (PLENUM/ACLP), linkage by identical shape class, second expansions listing a subset of components, identical assemblies expanded in turn give identical results (module state untouched).", "Recorded known findings: neighbouring blocks with different targets; 3-D shapes under prescribed axial growth."),
+    "C13": ("Also: array-valued parameters with every sharing pattern of array objects, parameters first assigned between two conversions (same or new changer object), sources turned earlier carrying displacements and corner data, neutron/gamma/adjoint flux re-derivation when edge halves merge.", "Recorded known findings: edge-assembly symmetry factor heuristic, no-op addEdgeAssemblies resetting assignment flags, convert dropping edge assemblies."),
+    "C14": ("Also: stationary blocks at any subset of axial levels (block order and elevations), purge vs discharge x tracking on/off, assemblies stored in the pool, refused operations (occupied cell however it is named, namesakes of live assemblies, mismatched stationary layouts, non-members) leave the state unchanged.", "Recorded known findings: blocksByName after dischargeSwap of a fresh assembly with stationary blocks."),
+    "C15": ("Also: restart points set by an interface during BOL, halt requests of any truthy type, addInterface at a symbolic position, interfaces that switched themselves off, restart in mid-cycle with non-uniform steps, tight-coupling iteration caps 0..n.", ""),
+    "C16": ("Also: keep-sets naming a parameter that exists on several classes, 30 public composition mutators x {read-only, scope with/without keep-set}, nested scopes with grid changes, kept arrays changed by tiny amounts, serial numbers of objects created inside scopes, read-only covers every object of the reactor and every way of assigning.", "Recorded known findings: linked dimension replaced inside a scope; deleted entry of a parameter with a default."),
+    "C20": ("Also: similarity check with the odd member at any position, compound valid block types, component insertion orders, nuclides held by a subset of members, zero-volume members, median block with lumped fission products.", ""),
+}
+
 # properties whose harness files are complete and green on the unchanged tree
 READY = ["C01", "C02", "C03", "C04", "C05", "C06", "C07", "C08", "C09", "C10", "C11", "C12", "C13", "C14", "C15", "C16",
          "C18", "C19", "C20"]
@@ -103,6 +119,9 @@ def main():
         pid = p["id"]
         if pid in CLAIMS and pid in have and pid in READY:
             text, note, ref = CLAIMS[pid]
+            if pid in EXTRA:
+                text = text.rstrip() + " " + EXTRA[pid][0]
+                note = (note.rstrip() + " " + EXTRA[pid][1]).strip()
             checks.append(dict(
                 property_id=pid,
                 quick_cmd="./check %s --tier quick" % pid,
